@@ -107,11 +107,15 @@ class DBusClientConnection (txdbus.protocol.BasicDBusProtocol):
         for cb in self._dcCallbacks:
             cb(self, reason)
 
-        for d, timeout in self._pendingCalls.values():
-            if timeout:
-                timeout.cancel()
-            d.errback(reason)
-        self._pendingCalls = {}
+        # an errback may issue further calls on this connection (a retry):
+        # the table is detached before it is walked, and whatever was added
+        # meanwhile is failed in turn
+        while self._pendingCalls:
+            pending, self._pendingCalls = self._pendingCalls, {}
+            for d, timeout in pending.values():
+                if timeout:
+                    timeout.cancel()
+                d.errback(reason)
 
         self.objHandler.connectionLost(reason)
 
